@@ -12,6 +12,17 @@ Configurations (DESIGN section 3, C09):
     selects itself (u8 up to 16 bits, u16 up to 32 bits);
   * the variants the tree itself instantiates (value / micro-promotion / length
     types of src/varintPackedTest.c, src/varintDimension.c, examples/);
+  * PACK_MAX_ELEMENTS variants (appended LAST so that the indices of the
+    configurations above, which committed corpus files refer to, never move):
+    the only thing the header derives from PACK_MAX_ELEMENTS is PACKED_LEN_TYPE
+    (offset / length parameters, loop counters and binary-search bounds):
+    uint8_t up to 255, uint16_t up to 65535, uint32_t up to 2^32-1, uint64_t
+    above.  Limits {255, 10000 (docs/modules/varintPacked.md), 65535, 70000} x
+    widths {1, 7, 12, 13, 24, 32} x every slot type, the tree's 3700 with the
+    wide widths (bit positions past 2^16), the documented configuration itself
+    (12 bit, COMPACT, explicit uint8_t slots, 10000), two limits above 2^32
+    (uint64_t length type) and two of 2*10^8 (uint32_t, enough for an element
+    at bit position 2^32);
 keeping only those in which an element never spans more than two slots: for
 every reachable start bit s = (k*B) mod S, s + B <= 2S, i.e. B <= S + gcd(B,S).
 
@@ -24,6 +35,7 @@ import sys
 SLOT = {'u8': ('uint8_t', 1), 'u16': ('uint16_t', 2), 'u32': ('uint32_t', 4),
         'u64': ('uint64_t', 8)}
 NTU = 4
+MAXEL_WIDTHS = (1, 7, 12, 13, 24, 32)
 
 
 def two_slots_max(bits, slot_bits):
@@ -78,6 +90,28 @@ def configs():
     # graph_database / game_replay_system: 16)
     add('t.b01.default', 1, 'u32', explicit_slot=False)
     add('t.b16.default', 16, 'u32', explicit_slot=False)
+    # ---- PACK_MAX_ELEMENTS variants: keep these at the end (see docstring)
+    for maxel in (255, 10000, 65535, 70000):
+        for bits in MAXEL_WIDTHS:
+            for slot in ('u8', 'u16', 'u32', 'u64'):
+                if two_slots_max(bits, SLOT[slot][1] * 8):
+                    add('m.b%02d.%s.max%d' % (bits, slot, maxel), bits, slot,
+                        maxel=maxel)
+    # the tree's own limit with widths whose bit positions pass 2^16 below it
+    add('m.b24.u16.max3700', 24, 'u16', maxel=3700)
+    add('m.b24.u32.max3700', 24, 'u32', maxel=3700)
+    add('m.b32.u32.max3700', 32, 'u32', maxel=3700)
+    add('m.b32.u64.max3700', 32, 'u64', maxel=3700)
+    # docs/modules/varintPacked.md, "Configuration Macros", verbatim
+    add('d.b12.u8.compact.max10000', 12, 'u8', compact=True, maxel=10000)
+    # limits above UINT32_MAX: uint64_t length type
+    add('m.b12.u8.max5000000000', 12, 'u8', maxel=5000000000)
+    add('m.b13.u32.max5000000000', 13, 'u32', maxel=5000000000)
+    # uint32_t length type with room for an element at bit position 2^32 (the
+    # deterministic sweep goes there through a sparse mapping)
+    add('m.b32.u32.max200000000', 32, 'u32', maxel=200000000)
+    add('m.b24.u16.max200000000', 24, 'u16', maxel=200000000)
+    assert len(out) <= 256, 'the case format selects the configuration by one byte'
     return out
 
 
@@ -95,7 +129,8 @@ def emit_one(idx, c):
     if c['promo']:
         lines.append('#define PACK_STORAGE_MICRO_PROMOTION_TYPE %s' % c['promo'])
     if c['maxel']:
-        lines.append('#define PACK_MAX_ELEMENTS %d' % c['maxel'])
+        lines.append('#define PACK_MAX_ELEMENTS %d%s'
+                     % (c['maxel'], 'ULL' if c['maxel'] > 0xffffffff else ''))
     lines += ['#define PACK_FUNCTION_PREFIX %s' % pfx,
               '#define PACK_STATIC',
               '#include "varintPacked.h"',
@@ -117,7 +152,7 @@ def main(argv):
             src.append(emit_one(idx, c))
         src.append('const c09_inst c09_part_%d[] = {' % k)
         for idx, c in part:
-            src.append('    C09_ENTRY(%d, "%s", %d, %d, %d, %d),'
+            src.append('    C09_ENTRY(%d, "%s", %d, %d, %d, %dULL),'
                        % (idx, c['name'], c['bits'], SLOT[c['slot']][1],
                           1 if c['compact'] else 0, c['maxel']))
         src.append('};')
